@@ -36,6 +36,22 @@ def check(ctx, prog, stats, samples):
     keys = [[[[0, D.cls_of_value(w, dec_val(e, w))] for e in call["vals"]],
              [[int(k), [0, D.cls_of_value(w, dec_val(e, w))]] for k, e in call.get("kwvals", {}).items()]] for call in prog["calls"]]
     art = model.run_cases([[22, w.encode(), mms, keys]])[0]
+    # the same program as the methods of one class body: self must be threaded through the generated dispatchers
+    # (all three strategies, their fall-through and their error paths) -- outcomes must be those of the plain function
+    try:
+        bm = progs.BuiltClass(world_from(prog["spec"]), prog["defs"], utab=prog.get("utab"))
+    except Exception as e:  # noqa
+        ctx.violation(f"the program cannot be written as a class body: {type(e).__name__}: {str(e)[:120]}", dict(prog, calls=prog["calls"][:1]))
+        return
+    for call, r in zip(prog["calls"], res):
+        vsm = [dec_val(e, bm.w) for e in call["vals"]]
+        kwm = {f"k{k}": dec_val(e, bm.w) for k, e in call.get("kwvals", {}).items()}
+        om, em = bm.call(vsm, kwm)
+        stats["evaluations"] += 1
+        stats["method_mode_calls"] += 1
+        if (D.impl_kind(om), em) != (r["impl"], r["entered"]):
+            ctx.violation(f"as a method of a class the call gives {(om, em)}, as a plain function {(r['impl_raw'], r['entered'])}", dict(prog, calls=[call], method_mode=True))
+            return
     for call, r, artifact in zip(prog["calls"], res, art):
         stats["evaluations"] += 1
         case = dict(prog, calls=[call])
@@ -164,7 +180,7 @@ def check_next(ctx, stats):
 def run(ctx):
     stats = collections.Counter()
     stats = {"evaluations": 0, "hist": collections.Counter(), "distinct": set(), "kf01": 0, "kf08": 0, "programs": 0,
-             "predicate_evaluations": 0, "rule_silent": 0, "rule_agreed": 0, "next_steps": 0}
+             "predicate_evaluations": 0, "rule_silent": 0, "rule_agreed": 0, "next_steps": 0, "method_mode_calls": 0}
     samples = []
     n = 80 if ctx.quick() else 4000
     for _ in range(n):
@@ -180,14 +196,14 @@ def run(ctx):
             "samples": samples, "programs": stats["programs"], "outcome_histogram": dict(stats["hist"]),
             "user_condition_evaluations_checked_against_bound": stats["predicate_evaluations"],
             "calls_agreeing_with_documented_rule": stats["rule_agreed"], "calls_where_rule_is_silent": stats["rule_silent"],
-            "deviations_attributed_to_KF-01": stats["kf01"], "call_next_steps_checked": stats["next_steps"],
+            "deviations_attributed_to_KF-01": stats["kf01"], "call_next_steps_checked": stats["next_steps"], "calls_repeated_as_methods_of_a_class": stats["method_mode_calls"],
             "call_next_deviations_attributed_to_KF-08": stats["kf08"], "traces_validated_against_impl": stats["evaluations"]}
 
 
 def replay(ctx, payload):
     """re-run the recorded program through the same comparisons; reproduced iff it raises a violation again"""
     stats = {"evaluations": 0, "hist": collections.Counter(), "distinct": set(), "kf01": 0, "kf08": 0, "programs": 0,
-             "predicate_evaluations": 0, "rule_silent": 0, "rule_agreed": 0, "next_steps": 0}
+             "predicate_evaluations": 0, "rule_silent": 0, "rule_agreed": 0, "next_steps": 0, "method_mode_calls": 0}
     before = len(ctx.violations)
     check(ctx, payload["case"], stats, [])
     return len(ctx.violations) > before
